@@ -108,6 +108,30 @@ CLAIMED = {
        "paths and viewed through exact / any static types, ==, != and match value arms, compared with Spec and with content "
        "equality computed in Python.",
   note=SPEC_NOTE, technique="Lean 4 proof over a total model of value equality + differential provenance pairs + content-equality oracle", ref="DESIGN.md §6 C19"),
+ "C01": dict(
+  text="Lean 4 theorems (stage 1 of the soundness proof): value-in-type membership by contents (hasTy) for the whole type "
+       "language; soundness of the subtype relation — if A matches B every first-order, cell-free value of A is a value of B "
+       "(induction on type size through all arms of Type::matches, unions on both sides, struct width/depth, tuples, arrays); "
+       "union / array membership; every integer arm regenerated from the sources yields an int, comparisons a bool, float and "
+       "string operators their kind; indexing yields a member of the element type. The evaluator-level statement (every value "
+       "produced by an accepted program inhabits the static type of the instruction that produced it) is NOT proved: for the "
+       "running code it is decided by the in-crate monitor (feature `verif`), which judges the result of every executed "
+       "instruction (~140k per quick run) against that instruction's own return_type() by tag and by contents, on generated "
+       "programs, iterator pipelines pulled past exhaustion and host calls; the Spec correspondence runs on the same programs.",
+  note="Lean kernel; stage-1 theorems are about the hand models Ty / Val.hasTy / Spec.binScalar (tied by the type, scalar and prog "
+       "streams); functions and cells are outside matches_sound_partial; the monitor is code added to /repo under the guard and "
+       "exempts the three placeholder-typed helper closures (MAP, FILTER, ITER bodies).",
+  technique="Lean 4 proof (value typing, subtype soundness, operator typing) + in-crate soundness monitor on generated programs", ref="DESIGN.md §6 C01"),
+ "C02": dict(
+  text="Lean 4 theorems about Spec, where everything the implementation can only answer with a panic is the outcome `wrong`: on "
+       "the operand kinds the checker admits, no binary / prefix operator, index or slice is `wrong` (only the documented errors); "
+       "break / continue / return never escape a call, loops never let break / continue out; the error enumeration equals the "
+       "variants of ExecError in the source. Progress for whole accepted programs is NOT proved: for the running code it is decided "
+       "by panic hook + catch_unwind + worker exit status on generated programs, scoping / control-flow templates, iterator "
+       "pipelines, assignment histories and host calls (admissible vectors must run, inadmissible ones must be rejected).",
+  note="Lean kernel; Spec is hand-written (tied by the prog stream); resource exhaustion is outside the claim and ends runs as "
+       "`inconclusive` through the fuel hook; panics inside third-party crates are observed, not modelled (except slyce's index conversion).",
+  technique="Lean 4 proof (no-wrong lemmas, signal containment) + panic oracle on generated programs and host calls", ref="DESIGN.md §6 C02"),
 }
 NOT_YET = "machinery for this property is not built yet in this round (planned, see DESIGN.md §6)"
 
